@@ -14,7 +14,8 @@ EXPLANATION = (
     ' Third round: every accepted chart entry is expanded unconditionally (search:expansion-unconditional).'
     ' Fourth round: the span rule of unary steps (chains included, whatever nbest is) and the admission rule of supertags.'
     ' Fifth round: the chunking / in-order gather rules of the pooled path (shared with C11).'
-    ' Sixth round: the outside tables are judged here too (R10.2, partial_sum spelling read); the allowed roots are registered through the category table (R10.3).')
+    ' Sixth round: the outside tables are judged here too (R10.2, partial_sum spelling read); the allowed roots are registered through the category table (R10.3).'
+    ' Eighth round: the configuration is built once per call and before the sentence loop (R10.3).')
 TRUSTED = ['clang-14 front end', 'CPython ast', 'sa/pyx.py normaliser', 'rule table DESIGN.md C10']
 
 
